@@ -414,6 +414,7 @@ func Specs() map[string]*PropSpec {
 		Inst{Pkg: "app/ante", Fn: "VerifC06_ExtensionOptions", Params: pm("max", "5")})
 	deep("C18", "the Ethereum vesting decorator over 3 messages", nr("app/ante/evm", "VerifC08_EthAnte", "msgs", "3"))
 	deep("C08", "the Ethereum vesting decorator over 3 messages of a vesting account", nr("app/ante/evm", "VerifC08_EthAnte", "msgs", "3"))
+	deep("C19", "liquid vesting genesis with 3 denoms of 4 periods each", nr("x/liquidvesting", "VerifC19_Liquidvesting", "denoms", "3", "periods", "4"))
 	deep("C19", "ucdao ledger over 3 accounts x 3 denominations", er("x/ucdao/keeper", "VerifC19_Ucdao", "accounts", "3", "denoms", "3"))
 	return m
 }
